@@ -89,7 +89,7 @@ class Ctx:
 
     # ------------------------------------------------------------------ TLC
     def tlc(self, module, cfg, workers=None, env=None, timeout=1800, simulate=None,
-            depth=None, extra=None, label=None, heap=None):
+            depth=None, extra=None, label=None, heap=None, out_file=None):
         """Run TLC on spec/<module>.tla with spec/cfg/<cfg>.cfg in the scratch copy.
         Returns dict(out, diags, generated, distinct, ok, violated)."""
         workers = workers or NCPU
@@ -117,13 +117,28 @@ class Ctx:
             e.update({k: str(v) for k, v in env.items()})
         t = time.time()
         try:
-            p = subprocess.run(cmd, cwd=self.specdir, env=e, capture_output=True, text=True,
-                               timeout=timeout)
+            if out_file:
+                # large generated outputs (GEN configs) are streamed to a file, not held in memory
+                with open(out_file, "w") as of:
+                    p = subprocess.run(cmd, cwd=self.specdir, env=e, stdout=of, stderr=subprocess.STDOUT,
+                                       text=True, timeout=timeout)
+            else:
+                p = subprocess.run(cmd, cwd=self.specdir, env=e, capture_output=True, text=True,
+                                   timeout=timeout)
         except subprocess.TimeoutExpired:
             raise Broken("TLC timeout on %s/%s" % (module, cfg))
         finally:
             shutil.rmtree(meta, ignore_errors=True)
-        out = p.stdout + p.stderr
+        if out_file:
+            with open(out_file, "rb") as of:
+                of.seek(0, 2)
+                size = of.tell()
+                of.seek(max(0, size - 20000))
+                tailtxt = of.read().decode("utf-8", "replace")
+            # keep only the non-generated lines of the tail for the summary parsers
+            out = "\n".join(l for l in tailtxt.splitlines() if not l.startswith('"{'))
+        else:
+            out = p.stdout + p.stderr
         wall = time.time() - t
         res = dict(module=module, cfg=cfg, label=label or cfg, wall_s=round(wall, 2), out=out,
                    rc=p.returncode)
@@ -251,7 +266,7 @@ def tv_shards(ctx, module, cfg, files, env_name="VERIF_TRACE", timeout=3000, par
     """Validate many trace files in parallel, one single-worker TLC process per file.
     Returns (events, diags, runs)."""
     from concurrent.futures import ThreadPoolExecutor
-    par = par or NCPU
+    par = par or min(NCPU, 12)          # each process may grow to its -Xmx (4g): keep the sum below RAM
 
     def one(f):
         return f, ctx.tlc(module, cfg, workers=1, env={env_name: f}, timeout=timeout,
